@@ -24,12 +24,12 @@ theorem tables_valid :
 /-- **lr_sound** for the regenerated tables. -/
 theorem lr_sound {τ σ ε : Type} (ty : τ → Nat) (R : Source τ σ ε) (fuel : Nat) (s : σ)
     (v : Tree τ) (c' : Config τ (Tree τ) σ)
-    (hacc : run Grammar.cached (treeSem (ε := ε) ty) R fuel (initConfig s) = (.accepted v, c')) :
+    (hacc : run Grammar.cached (treeSem (σ := σ) (ε := ε) ty) R fuel (initConfig s) = (.accepted v, c')) :
     v.valid Grammar.cached ty ∧ v.yield = c'.shifted.reverse :=
   run_sound tables_valid fuel _ _ _ (inv_init s) hacc
 
 /-- the driver is a function: same tables, source and fuel give the same outcome (determinism) -/
-theorem lr_deterministic {τ ν σ ε : Type} (S : Sem τ ν ε) (R : Source τ σ ε) (fuel : Nat)
+theorem lr_deterministic {τ ν σ ε : Type} (S : Sem τ ν σ ε) (R : Source τ σ ε) (fuel : Nat)
     (c : Config τ ν σ) (o₁ o₂ : Outcome ν ε × Config τ ν σ)
     (h₁ : run Grammar.cached S R fuel c = o₁) (h₂ : run Grammar.cached S R fuel c = o₂) : o₁ = o₂ :=
   h₁.symm.trans h₂
